@@ -38,6 +38,21 @@ def located_error(
     if isinstance(original_error, GraphQLError) and original_error.path is not None:
         return original_error
     try:
+        return _located_error(original_error, nodes, path)
+    except Exception as error:  # noqa: BLE001
+        # The duck-typed attributes of a foreign exception cannot be trusted. If reading
+        # or using them fails, locate the error by the given nodes and path only.
+        with suppress(Exception):
+            return GraphQLError(f"{error}", nodes, None, None, path, error)
+        return GraphQLError("An unknown error occurred.", nodes, None, None, path)
+
+
+def _located_error(
+    original_error: Exception,
+    nodes: None | Collection[Node],
+    path: Collection[str | int] | None,
+) -> GraphQLError:
+    try:
         message = str(original_error.message)  # type: ignore
     except AttributeError:
         message = str(original_error)
